@@ -501,7 +501,7 @@ func DaysFromCivil(y, m, d int64) int64 {
 // Civil is a broken-down UTC-offset timestamp.
 type Civil struct {
 	Y, M, D, H, Mi, S int64
-	Off                int64 // seconds east of UTC
+	Off               int64 // seconds east of UTC
 }
 
 func (c Civil) Unix() int64 {
